@@ -134,6 +134,24 @@ def as_value(vals, vform):
     return list(vals)
 
 
+def absent_value(known):
+    """a value of the same kind that is not among `known` and sorts below the largest one"""
+    if not known:
+        return None
+    if all(isinstance(v, str) for v in known):
+        cand = min(known) + '!'
+        return cand if cand not in known and cand < max(known) else None
+    if all(isinstance(v, (int, float)) and not isinstance(v, bool) for v in known):
+        lo, hi = min(known), max(known)
+        cand = lo - 1 if len(set(known)) == 1 else None
+        for a in sorted(set(known)):
+            c = a + 1
+            if c not in known and c < hi:
+                return type(a)(c)
+        return cand if cand is not None and cand not in known else None
+    return None
+
+
 def sort_key(v):
     v = norm(v)
     return v
@@ -317,7 +335,15 @@ class Run:
         if len(pos) > MAX_RDM:
             raise Skip('size-cap')
         op = 'subsample'
-        res = self.call(op, e.obj.subsample, key, as_value(picks, rec['vform']))
+        ask = list(picks)
+        if len(picks) >= 1 and rec['vform'] in ('list', 'tuple') and len(rec['picks']) % 2 == 0:
+            # the request may name a value that no RDM carries (e.g. an index that an earlier
+            # subset removed): it selects nothing - here one that sorts between existing values
+            known = [norm(v) for v in dvals]
+            absent = absent_value(known)
+            if absent is not None:
+                ask.insert(len(ask) // 2, absent)
+        res = self.call(op, e.obj.subsample, key, as_value(ask, rec['vform']))
         self.add(res, e.model.clone(rows=[e.model.rows[p] for p in pos]), op, [e.eid],
                  ordered_rows=False)
         self.verify_bystanders(op, sources=[e])
